@@ -347,6 +347,21 @@ def st_cases():
             "order": st.one_of(st.none(), st.integers(0, 10 ** 6)),
             "identity": st.sampled_from(["both", "both", "auth", "label"]),
             "label_seq": st.sampled_from([None, None, "author"])})))
+        if draw(st.integers(0, 3)) == 0:
+            # a flat model (2D layout, idealised template): every atom in one axis-aligned plane, so that the four
+            # atoms of every torsion are EXACTLY coplanar and chi is exactly 0 or 180 degrees
+            axis = draw(st.sampled_from(["x", "y", "z"]))
+            level = atoms[0][axis] if atoms else 0.0
+            flat = [dict(a, **{axis: level}) for a in atoms]
+            other = "y" if axis == "x" else "x"
+            for k, a in enumerate(flat):
+                # two atoms that fall onto one spot of the plane: the later one moves out of the lattice altogether
+                n = 0
+                while any((a["x"] - b["x"]) ** 2 + (a["y"] - b["y"]) ** 2 + (a["z"] - b["z"]) ** 2 < 0.36 for b in flat[:k]) and n < 12:
+                    a[other] = round(a[other] + 61.5, 3)
+                    n += 1
+            if atomtab.spread(flat, 0.6) and all(-900 < a[other] < 9000 for a in flat):
+                atoms = flat
         return {"atoms": atoms, "null": draw(st.sampled_from(["?", "."])), "dialect": dialect}
 
     return build()
